@@ -39,10 +39,19 @@ def preset(cg, kind):
                 n.fields['lhs'] = cg.node('lhs')
                 n.fields['rhs'] = cg.node('rhs')
         elif kind == 'ND_COND':
-            n.fields['ty'] = ty
-            n.fields['then'] = cg.node('then', ty=ty)
-            n.fields['els'] = cg.node('els', ty=ty)
+            # typing relation (add_type, checked by R20.11): both arms are converted to the node's type, or one arm is void: then the node
+            # is void and the other arm keeps whatever type it has
             n.fields['cond'] = cg.node('cond')
+            which = ctx.choose(3, 'conditional: both arms have the node\'s type / the second operand is void / the third operand is void')
+            if which == 0:
+                n.fields['ty'] = ty
+                n.fields['then'] = cg.node('then', ty=ty)
+                n.fields['els'] = cg.node('els', ty=ty)
+            else:
+                vt = cg.tcell('node.ty', only=('void',))
+                n.fields['ty'] = vt
+                n.fields['then'] = cg.node('then', ty=vt if which == 1 else cg.tcell('then.ty'))
+                n.fields['els'] = cg.node('els', ty=vt if which == 2 else cg.tcell('els.ty'))
         elif kind == 'ND_COMMA':
             n.fields['ty'] = ty
             n.fields['lhs'] = cg.node('lhs')
@@ -259,6 +268,9 @@ def run(P, rep, tier):
         if n == 0:
             rep.undecided('R20.1', '%s:gen_expr:%s' % (U, kind), 'no returning path for a kind gen_expr has an arm for')
     r_calls(cg, P, rep, tier)
+    r_call_value(cg, P, rep)
+    r_ret_buffer(P, rep)
+    r_typing_relation(P, rep)
     rep.rule('R20.7', 'every gen_addr arm: machine-stack effect 0 and x87 effect 0 (an address is left in %rax only), assuming the contract of its children; an operand evaluated only for its side effects is discarded there as well', floor=5)
     ahandled = expr_kinds_handled(cg, 'gen_addr')
     if len(ahandled) < 4:
@@ -281,7 +293,39 @@ def run(P, rep, tier):
             rep.undecided('R20.2', '%s:gen_stmt:%s' % (U, kind), 'no returning path')
 
 
+# aggregate shapes of this module in addition to the psABI vocabulary of sa/lib_abi.py (same format: size, align, members); they exist
+# in the vocabulary only while the C20 call rules run
+EXTRA_SHAPES = {
+    'u_L':  (16, 16, [('ldouble', 0)]),                                  # union { long double }: class X87 as a return value
+    'u_il': (8, 8, [('int', 0), ('long', 0)]),                           # union of integers: INTEGER
+    'u_fd': (8, 8, [('float', 0), ('double', 0)]),                       # union of floating members: SSE
+    'u_l3': (24, 8, [('long', 0), ('long', 8), ('long', 16), ('char', 0)]),  # union larger than 16 bytes (array-like): MEMORY
+    's_e':  (0, 1, []),                                                  # GNU empty struct: no eightbyte, takes no register and no memory
+}
+
+
+class _shapes:
+    """the module's extra aggregate shapes are part of the shared vocabulary inside a `with` block only"""
+    def __enter__(self):
+        from ..lib_abi import STRUCTS
+        self.added = [k for k in EXTRA_SHAPES if k not in STRUCTS]
+        for k in self.added:
+            STRUCTS[k] = EXTRA_SHAPES[k]
+        return self
+
+    def __exit__(self, *a):
+        from ..lib_abi import STRUCTS
+        for k in self.added:
+            STRUCTS.pop(k, None)
+        return False
+
+
 def r_calls(cg, P, rep, tier):
+    with _shapes():
+        _r_calls(cg, P, rep, tier)
+
+
+def _r_calls(cg, P, rep, tier):
     """ND_FUNCALL is analysed on concrete calls (argument lists make the per-kind exploration explode):
     for each argument class at each stack parity the stack pushed for the call is released after it."""
     from ..lib_abi import Builder
@@ -297,8 +341,15 @@ def r_calls(cg, P, rep, tier):
         for types in sigs:
             for depth0 in (0, 1):
                 _call(cg, B, rep, types, ret, depth0, 'gen_expr', where)
+    # union and empty aggregate arguments: in registers, in memory (class or register exhaustion), at both parities
+    usigs = [['u_il'], ['u_fd'], ['u_L'], ['u_l3'], ['u_Ll'], ['u_Ld'], ['long'] * 6 + ['u_il'], ['double'] * 8 + ['u_fd'], ['long'] * 7 + ['u_L']]
+    for types in usigs:
+        for depth0 in (0, 1):
+            _call(cg, B, rep, types, 'int', depth0, 'gen_expr', where)
+    for types in (['s_e'], ['int', 's_e', 'double'], ['long'] * 6 + ['s_e', 'long'], ['double'] * 8 + ['s_e', 'double']):
+        _call(cg, B, rep, types, 'int', 0, 'gen_expr', where)
     # every return class of an aggregate (INTEGER/SSE registers, X87 = %st(0), MEMORY), as an operand and as a discarded value
-    agg = ('s_ll', 's_dd', 's_ld', 's_L', 's_Le', 'u_Ll', 'u_Ld', 's_l3')
+    agg = ('s_ll', 's_dd', 's_ld', 's_L', 's_Le', 'u_Ll', 'u_Ld', 's_l3', 'u_L', 'u_il', 'u_fd', 'u_l3', 's_e')
     for ret in ('int', 'double', 'ldouble') + agg:
         for entry in ('gen_expr', 'gen_discard'):
             if entry == 'gen_discard' and not cg.cu.fn('gen_discard'):
@@ -319,6 +370,328 @@ def r_calls(cg, P, rep, tier):
                where=where, facts={'trace': tr.text()[-12:]})
 
 
+def r_call_value(cg, P, rep):
+    """a call of aggregate type leaves exactly one usable value: the address in %rax after the call designates an object that holds the
+    returned bytes and stays valid while the enclosing expression is evaluated (the caller's return buffer). These are the return-value
+    obligations of C06 R06.5 (caller and callee side, every return class), re-issued: they state this clause of C20 as well."""
+    from ..report import Report, reissue
+    from ..lib_abi import Builder
+    from . import c06
+    rep.rule('R20.9', 'a call returning an aggregate leaves one usable value: its address in %rax is the caller\'s return buffer, filled from the registers / %st(0) the callee used, or - class MEMORY - the hidden pointer the callee copied the object to and handed back in %rax, never storage of the callee\'s frame (same obligations as C06 R06.5)', floor=60)
+    sub = Report('C06')
+    with _shapes():      # also for this module's union shapes and the empty aggregate
+        c06.r_returns(cg, Builder(P), sub)
+    reissue(rep, 'R20.9', sub, 'the value of a call returning an aggregate is not usable: ', keep=lambda o: o['rule'] == 'R06.5')
+
+
+# typing relation the presets assume for the kinds an operand of type void (or of a type other than the node's) can reach, as a predicate
+# over the stack classes ('ld' | 'void' | 'other') of (node, operand, operand); must say the same as preset()
+REL = {
+    'ND_COND': (('then', 'els'), lambda n, a, b: (n == a == b) or (n == 'void' and 'void' in (a, b)),
+                'both arms have the class of the node, or one arm is void and so is the node'),
+    'ND_COMMA': (('lhs', 'rhs'), lambda n, a, b: n == b, 'the node has the class of its right operand'),
+    'ND_ASSIGN': (('lhs', 'rhs'), lambda n, a, b: n == a == b, 'node, left and (converted) right operand have the same class'),
+}
+REL_TYPES = ('void', 'bool', 'int', 'long', 'double', 'ldouble', 'ptr', 'struct')
+
+
+def r_typing_relation(P, rep):
+    """R20.1 is proved per node kind on an abstract node obeying the typing relation of that kind; for the kinds where the relation is not
+    simply "operands have the node's type" it is checked here against add_type itself, on every pair of operand types: after add_type the
+    (node, operand, operand) stack classes must be a combination preset() explores."""
+    from ..lib_types import Types, typed_leaf
+    T = Types(P)
+    rep.rule('R20.11', 'the typing relation the per-kind effect rules assume (which operands share the node\'s long double / void / other class) is what add_type produces, for every pair of operand types of a conditional, comma and assignment expression', floor=100)
+    where = 'type.c:%d' % T.tu.fn('add_type').line
+
+    def cls(it, t):
+        t = it.settle(t) if isinstance(t, View) else t
+        if not isinstance(t, Obj):
+            return None
+        k = t.fields.get('kind')
+        return 'ld' if k == T.E['TY_LDOUBLE'] else ('void' if k == T.E['TY_VOID'] else ('other' if isinstance(k, int) else None))
+
+    def leaf(it, tn, label):
+        if tn == 'struct':
+            n = typed_leaf(it, T, 'int', label)
+            st = Obj('Type', lazy=True, label='T:struct')
+            st.fields.update({'kind': T.E['TY_STRUCT'], 'size': 24, 'align': 8, 'base': 0, 'is_unsigned': 0})
+            n.fields['ty'] = st
+            return n
+        return typed_leaf(it, T, tn, label)
+    for kind, (flds, pred, text) in sorted(REL.items()):
+        for a in REL_TYPES:
+            for b in REL_TYPES:
+                if kind == 'ND_ASSIGN' and ('void' in (a, b) or (('struct' in (a, b)) and a != b)):
+                    continue        # not an assignment of C (constraint violation)
+                if kind == 'ND_COND' and ('struct' in (a, b)) and a != b and 'void' not in (a, b):
+                    continue
+                it = T.interp(opaque=['error_tok'])
+                box = {}
+
+                def mk(ctx, kind=kind, a=a, b=b):
+                    it.ctx = ctx
+                    n = Obj('Node', lazy=False, label='node')
+                    n.fields['kind'] = T.E[kind]
+                    n.fields['tok'] = Obj('Token', lazy=True, label='tok')
+                    if kind == 'ND_COND':
+                        n.fields['cond'] = typed_leaf(it, T, 'int', 'cond')
+                    n.fields[flds[0]] = leaf(it, a, flds[0])
+                    n.fields[flds[1]] = leaf(it, b, flds[1])
+                    ctx.node = n
+                    return [n]
+                key = 'type.c:add_type:%s(%s,%s)' % (kind, a, b)
+                try:
+                    outs = [(c, o) for c, o in it.explore('add_type', mk) if o[0] == 'ret' and not any(e[0] == 'call' and e[1] == 'error_tok' for e in c.events)]
+                except AnalysisBroken as e:
+                    rep.undecided('R20.11', key, 'add_type is not explorable here: %s' % e, where=where); continue
+                if not outs:
+                    continue            # rejected by add_type: no such node reaches the code generator
+                bad = None
+                for c, o in outs:
+                    n = c.node
+                    kids = [n.fields.get(f) for f in flds]
+                    kids = [it.settle(k) if isinstance(k, View) else k for k in kids]
+                    tri = (cls(it, n.fields.get('ty')),) + tuple(cls(it, k.fields.get('ty')) if isinstance(k, Obj) else None for k in kids)
+                    if None in tri:
+                        bad = 'undecided'; break
+                    if not pred(*tri):
+                        bad = tri
+                if bad == 'undecided':
+                    rep.undecided('R20.11', key, 'the types after add_type are not concrete', where=where); continue
+                rep.ob('R20.11', key, bad is None,
+                       '%s with operands of type (%s, %s): after add_type the node is of class %s and its operands (%s, %s) of classes (%s, %s); the stack-effect rule of this kind (R20.1) is proved for: %s. '
+                       'A long double operand that does not share the node\'s class is left on / missing from the x87 stack' % ((kind, a, b) + ((bad[0], flds[0], flds[1], bad[1], bad[2]) if bad else ('', '', '', '', '')) + (text,)), where=where)
+
+    # statement expression: the node has the type of the expression of its last statement (whatever precedes it)
+    for a in REL_TYPES:
+        for b in (None, 'ldouble', 'int'):
+            it = T.interp(opaque=['error_tok'])
+
+            def mk(ctx, a=a, b=b):
+                it.ctx = ctx
+                tok = Obj('Token', lazy=True, label='tok')
+                n = Obj('Node', lazy=False, label='node')
+                n.fields.update({'kind': T.E['ND_STMT_EXPR'], 'tok': tok})
+                last = Obj('Node', lazy=False, label='last')
+                last.fields.update({'kind': T.E['ND_EXPR_STMT'], 'tok': tok, 'lhs': leaf(it, a, 'last.lhs')})
+                n.fields['body'] = last
+                if b is not None:
+                    first = Obj('Node', lazy=False, label='first')
+                    first.fields.update({'kind': T.E['ND_EXPR_STMT'], 'tok': tok, 'lhs': leaf(it, b, 'first.lhs'), 'next': last})
+                    n.fields['body'] = first
+                ctx.node = n
+                return [n]
+            key = 'type.c:add_type:ND_STMT_EXPR(%s%s)' % ('' if b is None else b + ';', a)
+            try:
+                outs = [(c, o) for c, o in it.explore('add_type', mk) if o[0] == 'ret' and not any(e[0] == 'call' and e[1] == 'error_tok' for e in c.events)]
+            except AnalysisBroken as e:
+                rep.undecided('R20.11', key, 'add_type is not explorable here: %s' % e, where=where); continue
+            if not outs:
+                continue
+            got = {cls(it, c.node.fields.get('ty')) for c, o in outs}
+            want = 'ld' if a == 'ldouble' else ('void' if a == 'void' else 'other')
+            if None in got:
+                rep.undecided('R20.11', key, 'the type after add_type is not concrete', where=where); continue
+            rep.ob('R20.11', key, got == {want}, 'a statement expression whose last statement is an expression of type %s gets a type of class %s; R20.1 is proved for a node that has the type of that expression (its value is what the body leaves)' % (a, sorted(got)), where=where)
+
+
+RET_KINDS = ('TY_VOID', 'TY_BOOL', 'TY_CHAR', 'TY_SHORT', 'TY_INT', 'TY_LONG', 'TY_FLOAT', 'TY_DOUBLE', 'TY_LDOUBLE', 'TY_ENUM', 'TY_PTR', 'TY_STRUCT', 'TY_UNION')
+
+
+def r_ret_buffer(P, rep):
+    """the call rules (R20.5, R20.9) take from the scenario that a call node of aggregate type carries a return buffer object of that type and
+    that no other call node does: everything the code generator does to make such a call leave one value (hidden pointer, copy out of the
+    return registers, the pop of %st(0) for an X87-class aggregate, the address that is the value) hangs off node->ret_buffer. Here the
+    parser side is decided: funcall() of parse.c is interpreted on abstract tokens (any argument list) for a callee of every return type
+    kind; add_type() must leave the type of a call node at the callee's return type."""
+    from ..interp import _Ref, VarPlace
+    from ..lib_parse import TokenModel
+    from ..lib_types import Types
+    rep.rule('R20.10', 'every call node the parser builds for a callee returning a struct or a union (of any size) gets a return buffer object of exactly the call\'s type, a call of any other type gets none, and add_type keeps the type of a call at the callee\'s return type', floor=20)
+    pu = P.unit('parse.c')
+    E = pu.enums
+    if 'funcall' not in pu.functions:
+        raise AnalysisBroken('parse.c: funcall vanished')
+    where = 'parse.c:%d' % pu.fn('funcall').line
+    # who builds call nodes: every function that hands the enumerator ND_FUNCALL to a constructor / stores it into a kind field
+    builders = set()
+    for fname, fd in pu.functions.items():
+        for n in fd.walk():
+            if n.kind == 'DeclRefExpr' and n.ref_name == 'ND_FUNCALL':
+                par = n.parent
+                cmp_ = False
+                while par is not None and par.kind in ('ImplicitCastExpr', 'ParenExpr', 'ConstantExpr'):
+                    par = par.parent
+                if par is not None and (par.kind == 'CaseStmt' or (par.kind == 'BinaryOperator' and par.opcode in ('==', '!='))):
+                    cmp_ = True
+                if not cmp_:
+                    builders.add(fname)
+    rep.ob('R20.10', 'parse.c:funcall:builds-call-nodes', 'funcall' in builders, 'funcall() no longer builds the ND_FUNCALL node itself', where=where)
+    for kname in RET_KINDS:
+        if kname not in E:
+            raise AnalysisBroken('enumerator %s vanished' % kname)
+        agg = kname in ('TY_STRUCT', 'TY_UNION')
+        for size in ((0, 1, 8, 16, 17, 24, 4096) if agg else (None,)):
+            tm = TokenModel(P, pu, ['funcall'], extra_opaque=['assign', 'add_type', 'new_cast', 'new_lvar', 'copy_type'], loop_limit=1)
+            it = tm.interp()
+
+            def mk(ctx, kname=kname, size=size):
+                fn = Obj('Node', lazy=True, label='fn')
+                fty = Obj('Type', lazy=True, label='fty')
+                fty.fields['kind'] = E['TY_FUNC']
+                rt = Obj('Type', lazy=True, label='rty')
+                rt.fields['kind'] = E[kname]
+                if size is not None:
+                    rt.fields['size'] = size
+                fty.fields['return_ty'] = rt
+                ctx.rty = rt
+                if ctx.choose(2, 'callee designated directly / through a pointer to function') == 0:
+                    fn.fields['ty'] = fty
+                else:
+                    pt = Obj('Type', lazy=True, label='pty')
+                    pt.fields['kind'] = E['TY_PTR']; pt.fields['base'] = fty
+                    fn.fields['ty'] = pt
+                return [_Ref(VarPlace({'rest': None}, 'rest')), tm.token('tok'), fn]
+            tag = kname[3:].lower() + ('' if size is None else '/size%d' % size)
+            key = 'parse.c:funcall:return-buffer/%s' % tag
+            try:
+                rets = [(c, o) for c, o in it.explore('funcall', mk, max_paths=4000) if o[0] == 'ret']
+            except AnalysisBroken as e:
+                rep.undecided('R20.10', key, 'funcall is not explorable: %s' % e, where=where); continue
+            if not rets:
+                rep.undecided('R20.10', key, 'funcall has no returning path for this callee', where=where); continue
+            bad = set()
+            for c, o in rets:
+                node = it.settle(o[1]) if isinstance(o[1], View) else o[1]
+                if not isinstance(node, Obj):
+                    bad.add('the result is not a node'); continue
+                nty = node.fields.get('ty')
+                nty = it.settle(nty) if isinstance(nty, View) else nty
+                if nty is not c.rty:
+                    bad.add('the call node does not get the callee\'s return type')
+                rb = node.fields.get('ret_buffer')
+                made = [e for e in c.events if e[0] == 'call' and e[1] == 'new_lvar' and (e[4] is rb or (isinstance(rb, View) and isinstance(e[4], View) and e[4].cell is rb.cell))]
+                if agg:
+                    if rb is None or rb == 0:
+                        bad.add('no return buffer is created')
+                    elif len(made) != 1:
+                        bad.add('the return buffer is not a fresh local variable')
+                    else:
+                        t = made[0][2][1]
+                        t = it.settle(t) if isinstance(t, View) else t
+                        if t is not c.rty:
+                            bad.add('the return buffer does not have the type of the call')
+                elif not (rb is None or rb == 0):
+                    bad.add('a return buffer is created')
+            what = ('a call of a function returning a %s%s: %s. The code generator passes the hidden result pointer, copies %%rax/%%rdx/%%xmm0/%%xmm1 - or pops %%st(0) - into the result object '
+                    'and leaves the object\'s address as the value of the call exactly when node->ret_buffer is set: without it a class X87 aggregate stays on the x87 stack at every call '
+                    '(also when the value is discarded) and %%rax is not the address of the result; with it a scalar result is overwritten by an address'
+                    % (kname[3:].lower(), '' if size is None else ' of size %d' % size, '; '.join(sorted(bad))))
+            rep.ob('R20.10', key, not bad, what, where=where, facts={'paths': len(rets)})
+    # other builders of call nodes: the node type they give must not be an aggregate (decided from the callee object they use), or they must set a buffer
+    for fname in sorted(builders - {'funcall'}):
+        key = 'parse.c:%s:call-node-type' % fname
+        w2 = 'parse.c:%d' % pu.fn(fname).line
+        ok = _builder_ok(P, pu, fname)
+        if ok is None:
+            rep.undecided('R20.10', key, '%s builds ND_FUNCALL nodes; whether their type can be an aggregate without a return buffer could not be decided' % fname, where=w2)
+        else:
+            rep.ob('R20.10', key, ok, '%s builds a call node whose type is a struct or union but sets no return buffer' % fname, where=w2)
+    # add_type on a call node
+    T = Types(P)
+    w3 = 'type.c:%d' % T.tu.fn('add_type').line
+    for kname in RET_KINDS:
+        it = T.interp(opaque=['error_tok'])
+
+        def mk2(ctx, kname=kname):
+            it.ctx = ctx
+            n = Obj('Node', lazy=False, label='node')
+            n.fields['kind'] = T.E['ND_FUNCALL']
+            n.fields['tok'] = Obj('Token', lazy=True, label='tok')
+            rt = Obj('Type', lazy=True, label='rty'); rt.fields['kind'] = T.E[kname]
+            fty = Obj('Type', lazy=True, label='fty'); fty.fields['kind'] = T.E['TY_FUNC']; fty.fields['return_ty'] = rt
+            n.fields['func_ty'] = fty
+            n.fields['lhs'] = Obj('Node', lazy=True, label='fn')
+            n.fields['args'] = 0
+            if ctx.choose(2, 'call node typed by the parser / not yet typed') == 0:
+                n.fields['ty'] = rt
+            else:
+                n.fields['ty'] = 0
+            rb = Obj('Obj', lazy=True, label='retbuf')
+            n.fields['ret_buffer'] = rb if kname in ('TY_STRUCT', 'TY_UNION') else 0
+            ctx.rty = rt; ctx.node = n; ctx.rb = n.fields['ret_buffer']
+            return [n]
+        key = 'type.c:add_type:ND_FUNCALL/%s' % kname[3:].lower()
+        try:
+            outs = [(c, o) for c, o in it.explore('add_type', mk2) if o[0] == 'ret']
+        except AnalysisBroken as e:
+            rep.undecided('R20.10', key, 'add_type is not explorable on a call node: %s' % e, where=w3); continue
+        if not outs:
+            rep.undecided('R20.10', key, 'add_type has no returning path on a call node', where=w3); continue
+        bad = set()
+        for c, o in outs:
+            t = c.node.fields.get('ty')
+            t = it.settle(t) if isinstance(t, View) else t
+            if t is not c.rty:
+                bad.add('the type of the call node becomes %r' % (getattr(t, 'label', t),))
+            if c.node.fields.get('ret_buffer') is not c.rb:
+                bad.add('the return buffer is replaced')
+        rep.ob('R20.10', key, not bad, 'add_type on a call of a function returning %s: %s; the code generator decides from node->ty (with node->ret_buffer) how the result is received' % (kname[3:].lower(), '; '.join(sorted(bad))), where=w3)
+
+
+def _builder_ok(P, pu, fname):
+    """a function other than funcall that builds a call node: interpret it with the parser's builtin callee objects as declare_builtin_functions
+    leaves them; True when on every returning path the node built has a non-aggregate type or a return buffer, None when not decidable"""
+    from ..interp import Interp, Unsupported
+    E = pu.enums
+    try:
+        def h_gvar(it, ctx, n, a):
+            o = Obj('Obj', lazy=True, label='gvar:%s' % (a[0],))
+            o.fields['name'] = a[0]; o.fields['ty'] = a[1]
+            return o
+        it0 = Interp(P, pu, {'cut': {'new_gvar': h_gvar}})
+        if 'declare_builtin_functions' not in pu.functions:
+            return None
+        r0 = [(c, o) for c, o in it0.explore('declare_builtin_functions', lambda ctx: []) if o[0] == 'ret']
+        if len(r0) != 1:
+            return None
+        g = {k: v for k, v in r0[0][0].globals.items() if isinstance(v, Obj) and (v.label or '').startswith('gvar:')}
+        it = Interp(P, pu, {'globals': g, 'opaque': ['add_type', 'new_lvar']})
+        nparam = len(pu.params(fname) or [])
+        ptypes = [(p.type or '') for p in pu.params(fname)]
+
+        def mk(ctx):
+            out = []
+            for i, t in enumerate(ptypes):
+                tt = t.replace(' ', '')
+                if tt == 'Node*':
+                    out.append(Obj('Node', lazy=True, label='arg%d' % i))
+                elif tt == 'Token*':
+                    out.append(Obj('Token', lazy=True, label='tok%d' % i))
+                else:
+                    raise Unsupported('parameter type ' + t)
+            return out
+        rets = [(c, o) for c, o in it.explore(fname, mk, max_paths=500) if o[0] == 'ret']
+        if not rets:
+            return None
+        for c, o in rets:
+            node = it.settle(o[1]) if isinstance(o[1], View) else o[1]
+            if not isinstance(node, Obj) or node.fields.get('kind') != E['ND_FUNCALL']:
+                return None
+            t = node.fields.get('ty')
+            t = it.settle(t) if isinstance(t, View) else t
+            k = t.fields.get('kind') if isinstance(t, Obj) else None
+            if not isinstance(k, int):
+                return None
+            rb = node.fields.get('ret_buffer')
+            if k in (E['TY_STRUCT'], E['TY_UNION']) and (rb is None or rb == 0):
+                return False
+        return True
+    except (AnalysisBroken, Unsupported):
+        return None
+
+
 def _call(cg, B, rep, types, ret, depth0, entry, where):
     from .c06 import run_caller
     from ..x86 import Unknown
@@ -328,7 +701,16 @@ def _call(cg, B, rep, types, ret, depth0, entry, where):
     try:
         ctx, tr, s = run_caller(cg, B, types, ret, depth0, entry=entry)
     except Unknown as e:
-        rep.undecided('R20.5', key, str(e), where=where); return
+        # the term machine starts with nothing pushed and nothing on the x87 stack: running out of either means that the sequence emitted
+        # for the call takes off more than it put on (a definite imbalance, not a limit of the analysis)
+        m = str(e)
+        if 'x87 pop from empty abstract stack' in m:
+            rep.ob('R20.5', key + ':x87', False, 'the sequence emitted for the call pops an x87 value that was never pushed (the x87 stack underflows)', where=where)
+        elif 'pop from an empty abstract stack' in m or 'beyond the abstract stack' in m:
+            rep.ob('R20.5', key, False, 'the sequence emitted for the call takes more off the machine stack than it pushed for it (%s): the pops and the release after the call do not match what was pushed for the arguments, %%rsp ends above its value before the call' % m, where=where)
+        else:
+            rep.undecided('R20.5', key, m, where=where)
+        return
     dd = ctx.globals.get('depth')
     ok = len(s.stack) == 0 and dd == depth0
     rep.ob('R20.5', key, ok, 'after the call %d pushed slot(s) are still on the stack and `depth` is %r (was %d): each evaluation of this call leaks stack' % (len(s.stack), dd, depth0), where=where, facts={'trace': tr.text()[-12:]})
